@@ -15,58 +15,18 @@
   * `wrapping_add`, `^`, `&`, `|`, `!`, `rotate_right` never panic and are the plain `BitVec` operations
     (`uN::rotate_right(n)` rotates by `n mod N`).
 
-  Import-free apart from CC.Prim (linked into the driver executable).
+  The Rust primitives (`dbgAssert`, `idx`, `setIdx`, `rotr`, `shr`, `shl`, `subU32`) and the five carrier
+  structures `U128x1 … U32x4x4` live in CC.Null.Vocab (the vocabulary shared with the definitions that
+  tools/inventory_null.py regenerates from the Rust source, lean/CC/Gen/NullSrc.lean; CC.Null.Src proves every
+  definition of this file equal to its regenerated counterpart).
+
+  Import-free apart from CC.Prim / CC.Null.Vocab (linked into the driver executable).
 -/
-import CC.Prim
+import CC.Null.Vocab
 namespace CC.Null
 open CC
 
-/-! ## Rust primitives -/
-
-/-- `debug_assert!(c)`: compiled only with `debug-assertions` (Profile.debug). -/
-def dbgAssert (p : Profile) (c : Bool) : Out Unit :=
-  match p with
-  | .debug => if c then .ok () else .panic "debug_assert failed"
-  | .release => .ok ()
-
-/-- `xs[i]` on a slice / array: bounds-checked in every profile. -/
-def idx {α} (xs : List α) (i : Nat) : Out α :=
-  match xs[i]? with
-  | some x => .ok x
-  | none => .panic "index out of bounds"
-
-/-- `xs[i] = v` on a slice: bounds-checked in every profile. -/
-def setIdx {α} (xs : List α) (i : Nat) (v : α) : Out (List α) :=
-  if i < xs.length then .ok (xs.set i v) else .panic "index out of bounds"
-
-/-- `uN::rotate_right(x, n : u32)`: rotation by `n mod N`, never panics. -/
-def rotr {w : Nat} (x : BitVec w) (n : BitVec 32) : BitVec w := x.rotateRight (n.toNat % w)
-
-/-- `x >> i` for `x : uN` (N = w a power of two ≤ 128), `i : u32`.  debug: panics when `i ≥ N`
-    ("attempt to shift right with overflow"); release: the amount is masked to `i & (N-1)`. -/
-def shr {w : Nat} (p : Profile) (x : BitVec w) (i : BitVec 32) : Out (BitVec w) :=
-  match p with
-  | .debug => if i < BitVec.ofNat 32 w then .ok (x >>> i) else .panic "attempt to shift right with overflow"
-  | .release => .ok (x >>> (i &&& BitVec.ofNat 32 (w - 1)))
-
-/-- `x << i`, same conventions as `shr`. -/
-def shl {w : Nat} (p : Profile) (x : BitVec w) (i : BitVec 32) : Out (BitVec w) :=
-  match p with
-  | .debug => if i < BitVec.ofNat 32 w then .ok (x <<< i) else .panic "attempt to shift left with overflow"
-  | .release => .ok (x <<< (i &&& BitVec.ofNat 32 (w - 1)))
-
-/-- `a - b` on `u32`: debug panics on underflow ("attempt to subtract with overflow"), release wraps. -/
-def subU32 (p : Profile) (a b : BitVec 32) : Out (BitVec 32) :=
-  match p with
-  | .debug => if b ≤ a then .ok (a - b) else .panic "attempt to subtract with overflow"
-  | .release => .ok (a - b)
-
 /-! ## `define_vec1!(u128x1, u128)` -/
-
-/-- `pub struct u128x1(u128)` -/
-structure U128x1 where
-  a : BitVec 128
-  deriving DecidableEq, Repr
 
 namespace U128x1
 
@@ -140,12 +100,6 @@ end U128x1
 
 /-! ## `define_vec2!(u128x2, u128)` -/
 
-/-- `pub struct u128x2(u128, u128)` -/
-structure U128x2 where
-  a : BitVec 128
-  b : BitVec 128
-  deriving DecidableEq, Repr
-
 namespace U128x2
 
 def new (a b : BitVec 128) : U128x2 := ⟨a, b⟩
@@ -195,14 +149,6 @@ def bitxor_assign (self rhs : U128x2) : U128x2 := self.zipmap rhs (· ^^^ ·)
 end U128x2
 
 /-! ## `define_vec4!(u32x4, u32)` -/
-
-/-- `pub struct u32x4(u32, u32, u32, u32)` -/
-structure U32x4 where
-  a : BitVec 32
-  b : BitVec 32
-  c : BitVec 32
-  d : BitVec 32
-  deriving DecidableEq, Repr
 
 namespace U32x4
 
@@ -298,14 +244,6 @@ end U32x4
 
 /-! ## `define_vec4!(u64x4, u64)` -/
 
-/-- `pub struct u64x4(u64, u64, u64, u64)` -/
-structure U64x4 where
-  a : BitVec 64
-  b : BitVec 64
-  c : BitVec 64
-  d : BitVec 64
-  deriving DecidableEq, Repr
-
 namespace U64x4
 
 /-- `const BITS: u32 = core::mem::size_of::<u64>() as u32 * 8;` -/
@@ -382,14 +320,6 @@ def splat_rotate_right (p : Profile) (self : U64x4) (i : BitVec 32) : Out U64x4 
 end U64x4
 
 /-! ## `u32x4x4` (hand-written) -/
-
-/-- `pub struct u32x4x4(u32x4, u32x4, u32x4, u32x4)` -/
-structure U32x4x4 where
-  a : U32x4
-  b : U32x4
-  c : U32x4
-  d : U32x4
-  deriving DecidableEq, Repr
 
 namespace U32x4x4
 
